@@ -7,6 +7,30 @@ import (
 func allChecks() []*Check {
 	return []*Check{
 		{
+			ID: "C04", Title: "Every registered handler runs exactly once per matching event",
+			Harnesses: []Harness{
+				{Pkg: "client", Func: "VerifC04Step", Quick: map[string]int{"N": 2}, Thorough: map[string]int{"N": 3},
+					Asserts: []string{"add-model", "remove-model", "snapshot-model", "post-invariant", "one-critical-section", "monitor:all-accesses-under-lock", "empty-list-dropped"}},
+				{Pkg: "client", Func: "VerifC04Dispatch", Quick: map[string]int{"N": 2}, Thorough: map[string]int{"N": 3},
+					Asserts: []string{"each-once", "ran-exactly-the-registered-count", "late-registration-runs-next-time", "post-invariant"}},
+			},
+			Bounds:      map[string]string{"quick": "pre-state: any well-formed handler set over 2 distinct symbolic names (1-2 ASCII bytes) with 0..2 handlers each, built directly in the heap; one add (either name in any letter case, or a third name) / remove (any node) / snapshot; dispatch of an event in any letter case with self-removal, sibling removal and registration from inside a handler", "thorough": "0..3 handlers per name"},
+			Outside:     []string{"more names/handlers than the bound (history length is unbounded by induction)", "true interleavings of racing Handle/Remove with dispatch: decided only through 'each operation is one critical section with every access inside it' (solver-checked on all paths) plus the textbook atomicity argument (not solver-checked)", "background-dispatch start time (as in the property)"},
+			Stubs:       []string{"sync.RWMutex / WaitGroup ghost models", "goroutines run to completion at wg.Wait"},
+			QuickBudget: 5 * time.Minute, ThorBudget: 30 * time.Minute,
+		},
+		{
+			ID: "C15", Title: "Each handler invocation gets its own copy of the line",
+			Harnesses: []Harness{
+				{Pkg: "client", Func: "VerifC15Copies", Quick: map[string]int{"A": 2}, Thorough: map[string]int{"A": 3, "A15": 1},
+					Asserts: []string{"equal-on-entry", "private-from-original", "private-from-each-other", "original-unchanged", "each-handler-invoked-once"}},
+			},
+			Bounds:      map[string]string{"quick": "lines with 0..2 arguments (0..2 symbolic bytes each), Tags nil / empty / 1 / 2 entries; 0..1 internal, 0..2 foreground, 0..2 background handlers that overwrite every mutable part of their line", "thorough": "0..2 and 15 arguments"},
+			Outside:     []string{"more handlers / arguments than the bound", "true interleavings of the handler bodies: the deterministic run-to-completion schedule suffices because pairwise heap-disjointness of everything the handlers can reach through their argument is exactly what is asserted"},
+			Stubs:       []string{"goroutines run to completion at the spawner's wg.Wait (one legal schedule)", "sync.* ghost models"},
+			QuickBudget: 5 * time.Minute, ThorBudget: 30 * time.Minute,
+		},
+		{
 			ID: "C10", Title: "Flood protection follows Hybrid's penalty rule",
 			Harnesses: []Harness{
 				{Pkg: "client", Func: "VerifC10Step", Asserts: []string{"penalty-rule", "hold-iff-over-10s"}},
